@@ -1527,6 +1527,9 @@ func (s *Server) sendLWT(cl *Client) {
 	}
 
 	modifiedLWT := s.hooks.OnWill(cl, cl.Properties.Will)
+	if !s.hooks.OnACLCheck(cl, modifiedLWT.TopicName, true) {
+		return // a will is a publish by the client: it needs the same write permission
+	}
 
 	pk := packets.Packet{
 		FixedHeader: packets.FixedHeader{
